@@ -13,7 +13,8 @@ body returned with its flattened results); the copies, the `ensure_single` wires
 The meaning of an equation line is `Spec/QapEq.lean` (independent of the emitters).
 Quantifier: ALL histories (any nesting and repetition of calls, malformed ones included), ALL integer
 witness values, coefficients, random values, any modulus, any digest function `H`.
-`Cfg.pinned` is the code as it is; theorems for arbitrary `cfg` cover the code with either defect repaired.
+`Cfg.pinned` is the code as it is; theorems for arbitrary `cfg` also cover the code before the two repairs
+(flush in `prove()`, coefficient test in `ensure_single`).
 -/
 namespace Pysnark
 open Pysnark.Qaptools Pysnark.QapEq
@@ -114,8 +115,7 @@ theorem C12_split_files : C12_split_files_full := by
   exact ⟨x, hx, he⟩
 
 /-- Completeness of the split over the ON-DISK content at proving time: per context the filed
-equations are exactly the equations `prove()` finds in the file.  This is all the pinned code gives:
-`add_constraint` does not flush and `prove()` reads the file back without flushing. -/
+equations are exactly the equations `prove()` finds in the file (for either setting of the flush). -/
 theorem C12_split_complete_partial {Dg : Type} [DecidableEq Dg] (H : List Line → Dg) (cfg : Cfg)
     (d1 d2 d3 : Int) (ops : List Op) (out : SplitOut Dg)
     (h : prove H cfg (run cfg d1 d2 d3 ops) = .ok out) :
@@ -137,32 +137,9 @@ def C12_split_complete_full : Prop :=
     prove id C12cfg (run C12cfg d1 d2 d3 ops) = .ok out →
     ∀ k, eqsGet out.acc.eqs k = tracedEqs ((run C12cfg d1 d2 d3 ops).eqs.map strip) k
 
-/-- the history of `x = PubVal(3); y = PrivVal(9); x*x == y` (last constraint unflushed) -/
-def cexTail : List Op :=
-  [.pub 3, .priv 9, .con [(1, ("main", "1"))] [(1, ("main", "1"))] [(1, ("main", "2"))]]
-
-/-- Finding (a): the product equation is traced (it is in the equation file once the process has
-ended) but `prove()` does not see it: it is in no per-function file. -/
-theorem C12_cex_unflushed_tail :
-    (match prove id C12cfg (run C12cfg 0 0 0 cexTail) with
-     | .ok out =>
-        decide (conLine [(1, ("main", "1"))] [(1, ("main", "1"))] [(1, ("main", "2"))] ∈ (run C12cfg 0 0 0 cexTail).eqs) &&
-        (eqsGet out.acc.eqs (some "main")).length == 2 &&
-        (tracedEqs ((run C12cfg 0 0 0 cexTail).eqs.map strip) (some "main")).length == 3 &&
-        out.files.all (fun fq => !fq.2.contains [.num 1, .loc "1", .sym "*", .num 1, .loc "1", .sym "=", .num 1, .loc "2", .sym "."])
-     | .error _ => false) = true := by decide +kernel
-
-theorem C12_split_complete_full_false : ¬ C12_split_complete_full := by
-  intro h
-  have c := C12_cex_unflushed_tail
-  cases hp : prove id C12cfg (run C12cfg 0 0 0 cexTail) with
-  | error e => rw [hp] at c; cases c
-  | ok out =>
-    rw [hp] at c
-    have := h 0 0 0 cexTail out hp (some "main")
-    simp only [Bool.and_eq_true, beq_iff_eq] at c
-    rw [this] at c
-    omega
+theorem C12_split_complete : C12_split_complete_full := by
+  intro d1 d2 d3 ops out h
+  exact C12_split_complete_of_flush id C12cfg rfl d1 d2 d3 ops out h
 
 /-! ## 4. same function, same equation set and signature, or the inconsistency is reported -/
 
@@ -499,26 +476,18 @@ theorem C12_glue_equal_of_unit (cfg : Cfg) (hu : cfg.unitCoeff = true) (d1 d2 d3
   exact glue_equal_core cfg d1 d2 d3 pre post rets rndv r2a r2b f rest hst hok hcoh
     (fun x _ hs => isSingle_unit cfg hu x hs)
 
-/-- `@subqap("square") def square(v): return v*v` called as `square(2*x)` with `x = PrivVal(3)` -/
-def cexCoef : List Op :=
-  [.priv 3,
-   .enter "square" [⟨.lincomb, ⟨6, [(2, ("main", "1"))]⟩⟩] 0 0 0,
-   .priv 36, .con [(1, ("main_1_square", "1"))] [(1, ("main_1_square", "1"))] [(1, ("main_1_square", "2"))],
-   .leave [⟨.lincomb, ⟨36, [(1, ("main_1_square", "2"))]⟩⟩] 7 0 0]
-
-/-- Finding (c): `ensure_single` accepts the one-term argument `2*x` and lists the wire of `x` (value 3)
-against the callee's copy (value 6): the paired blocks do not carry pairwise equal values, although the
-argument is coherent and all names are proper. -/
-theorem C12_cex_glue_coefficient :
-    let sf := run C12cfg 0 0 0 cexCoef
+/-- Clause 4, values, for the code as it is: no exclusion -/
+theorem C12_glue_equal (d1 d2 d3 : Int) (pre post : List Op)
+    (rets : List Arg) (rndv r2a r2b : Int) (f : Frame) (rest : List Frame)
+    (hst : (run C12cfg d1 d2 d3 pre).stack = f :: rest) :
+    let ops := pre ++ .leave rets rndv r2a r2b :: post
+    let sf := run C12cfg d1 d2 d3 ops
     let E : Env := ⟨C12cfg.p, sf.wires, sf.ios⟩
-    (keysOk (sf.wires ++ sf.ios) &&
-     decide (blockLine "main" "3" [⟨6, [(2, ("main", "1"))]⟩, ⟨36, [(1, ("main", "3"))]⟩] ∈ onDisk C12cfg sf) &&
-     decide (blockLine "main_1_square" "2" [⟨6, [(1, ("main_1_square", "1"))]⟩, ⟨36, [(1, ("main_1_square", "2"))]⟩] ∈ onDisk C12cfg sf) &&
-     decide (glueLine "main" "3" "main_1_square" "2" ∈ onDisk C12cfg sf) &&
-     decide (E.asg ("main", "1") = some 3) && decide (E.asg ("main_1_square", "1") = some 6) &&
-     decide (evalLC E.asg [(2, ("main", "1"))] = some 6) &&
-     !unitSingles (lcsOf cexCoef)) = true := by decide +kernel
+    E.ok → (∀ x ∈ lcsOf ops, Coherent E x) →
+    ∃ bn1 bn2 vs1 vs2,
+      blockLine f.old bn1 vs1 ∈ onDisk C12cfg sf ∧ blockLine f.new bn2 vs2 ∈ onDisk C12cfg sf ∧
+      glueLine f.old bn1 f.new bn2 ∈ onDisk C12cfg sf ∧ PairwiseEq E vs1 vs2 :=
+  C12_glue_equal_of_unit C12cfg rfl d1 d2 d3 pre post rets rndv r2a r2b f rest hst
 
 /-- "the blocks list ALL arguments and results" at full strength: one wire per leaf of any class -/
 def C12_glue_lists_all_full : Prop :=
